@@ -44,7 +44,7 @@ func fmtPropertyFails(src, out string) string {
 
 func runC09(cfg *vh.Config) error {
 	res := vh.NewResult("C09", cfg.Seed)
-	res.Rule = "inputs: formatter templates (escapable and non-ASCII string contents, regexes with slashes, nested arrays, inline/block comments, multi-line descriptions, blank-line and indentation patterns), the repository's .j5s/.bcl/fixture files, grammar-generated files (1/5 mutated), windows of repository files, random <=3-token sequences; plus the write path (j5 j5s fmt --file/--dir --write on temporary files that are longer, shorter and equal to the formatted text); plus direct ties of tokenSource and reformatDescription on random literals; non-trivial = distinct input the parser accepts with at least one statement"
+	res.Rule = "inputs: formatter templates (escapable and non-ASCII string contents, regexes with slashes, nested arrays, inline/block comments, multi-line descriptions, blank-line and indentation patterns), the repository's .j5s/.bcl/fixture files, grammar-generated files (1/5 mutated), windows of repository files, random <=3-token sequences, a pinned byte-level corpus (valid 2/3/4-byte characters, Unicode spaces, every kind of invalid UTF-8, in every literal kind and position), pinned templates for empty arrays, runs of empty description lines, shared-line fragments and trailing multi-line comments; plus the write path (j5 j5s fmt --file/--dir --write on temporary files that are longer, shorter and equal to the formatted text); plus the command's write decision on file trees (names separating walk order from string order, look-alike extensions, a rejected file at a chosen walk position, --file / --dir / both / missing, with and without --write) compared with model/BclCli.run_fmt; plus direct ties of tokenSource and reformatDescription on random literals; non-trivial = distinct input the parser accepts with at least one statement"
 	cf := &vh.CasesFile{
 		Header: "From Coq Require Import String List NArith ZArith.\nFrom J5V.model Require Import BclFmtCorr.",
 		Type:   "fmtcase",
@@ -212,6 +212,22 @@ func runC09(cfg *vh.Config) error {
 			}
 			_ = os.RemoveAll(d)
 			caseNo++
+		}
+	}
+
+	// ---- the write decision of the command against model/BclCli.v (stream cli)
+	{
+		var good []string
+		for _, in := range inputs {
+			if len(good) >= 60 {
+				break
+			}
+			if _, err := bcl.FmtPublic(in.src); err == nil && len(in.src) > 0 && len(in.src) < 400 {
+				good = append(good, in.src)
+			}
+		}
+		if err := runCliStream(cfg, res, cf, &caseNo, good); err != nil {
+			return err
 		}
 	}
 
